@@ -623,7 +623,10 @@ def check_generated_defaults(ctx):
     ctx.dist['mutable defaults in the generated table (= live inspect enumeration)'] = len(both)
     ctx.streams['generated-defaults'] = dict(cases=len(both), deviations=len(only_gen), live_only=['%s.%s(%s)' % e for e in only_live],
                                              table=['%s.%s(%s=%s)' % (e['module'], e['qualname'], e['param'], e['source'])
-                                                    for e in table['mutable_defaults']])
+                                                    for e in table['mutable_defaults']],
+                                             # methods other than __init__ that write self.<attr> (assignment / in-place update), read from the source:
+                                             # the instance state a call can leave behind - what the history oracle of the sweep has to cover
+                                             mutation_sites=['%s.%s: self.%s (%s)' % (c['name'], m, a, w) for c in table['classes'] for m, a, w in c['mutations']])
 
 
 def corpus():
